@@ -632,3 +632,172 @@ func H_C16_floatJSON(i int) {
 		verifAssert(false, "C16: the JSON of a float reads back as a number")
 	}
 }
+
+// ---- C09: a comment at every place of a program ----
+
+// The template below has numbered slots "@N@"; slot N is replaced by a comment
+// line (with the indentation of the following line), every other slot by
+// nothing.  listed = the comment precedes a declaration, parameter, binding,
+// call, return or collection element within the same bracketed scope (the
+// property promises "exactly once" and a fixed point for those); elsewhere only
+// "no comment text is lost" is promised.
+const c09PlacesTemplate = `@0@filetype txt;
+
+@1@struct PAIR(
+@2@    int a,
+    int b,
+)
+
+@3@stage FOO(
+@4@    in  int   x,
+@5@    out txt   z,
+    out txt   y,
+@6@    src comp  "bin",
+) using (
+@7@    mem_gb = 1,
+@8@) retain (
+@9@    z,
+)
+
+@10@pipeline P(
+@11@    in  int x,
+@12@    out txt z,
+)
+{
+@13@    call FOO(
+@14@        x = self.x,
+    )
+
+@15@    return (
+@16@        z = FOO.z,
+    )
+
+    retain (
+@17@        FOO.y,
+    )
+}
+
+@18@call P(
+@19@    x = 1,
+)
+`
+
+const c09ValuesTemplate = `stage BAR(
+    in  int[]    xs,
+    in  map<int> m,
+    in  PAIR     p,
+    out int      o,
+    src comp     "bin",
+)
+
+struct PAIR(
+    int a,
+    int b,
+)
+
+call BAR(
+    xs = [
+@0@        1,
+@1@        2,
+    ],
+    m  = {
+@2@        "k": 3,
+@3@        "l":
+            4,
+    },
+    p  = {
+@4@        a: 5,
+@5@        b: 6,
+    },
+)
+`
+
+// places of c09ValuesTemplate where the comment is followed by an empty line
+// (variant 1) are still "before a collection element within the same scope"
+
+func c09Fill(template string, slot int, comment string, blankAfter bool) string {
+	out := ""
+	for i := 0; i < len(template); {
+		if template[i] == '@' {
+			j := i + 1
+			n := 0
+			for template[j] != '@' {
+				n = n*10 + int(template[j]-'0')
+				j++
+			}
+			i = j + 1
+			if n == slot {
+				// indentation of the line the slot starts
+				k := i
+				for k < len(template) && template[k] == ' ' {
+					k++
+				}
+				indent := template[i:k]
+				out += indent + comment + "\n"
+				if blankAfter {
+					out += "\n"
+				}
+			}
+			continue
+		}
+		out += template[i : i+1]
+		i++
+	}
+	return out
+}
+
+var c09PlacesListed = []bool{
+	true, true, true, true, true, true, true, // 0..6: declarations and parameters (7: resource is a binding)
+	true,         // 7 a resource binding
+	false, false, // 8 before ") retain (", 9 inside a stage's retain list
+	true, true, true, // 10..12
+	true, true, true, true, // 13 call, 14 binding, 15 return, 16 return binding
+	false,      // 17 inside a pipeline's retain list
+	true, true, // 18 top-level call, 19 its binding
+}
+
+func c09CommentText(n int) string {
+	c := verifBytes("comment", n)
+	for i := range c {
+		verifAssume(verifAll(c[i] != '\n', c[i] != '\r', c[i] >= 0x21, c[i] < 0x7f))
+	}
+	return "#Q" + string(c) + "Q"
+}
+
+func c09CheckComment(src, marker string, listed bool) {
+	var parser Parser
+	ast, err := parser.UncheckedParse([]byte(src), "/m/c.mro")
+	if err != nil {
+		verifAssert(false, "C09: the fixture text parses")
+		return
+	}
+	f1 := ast.format(false)
+	verifCover("commented program formatted")
+	n := c09CountSub(f1, marker)
+	verifAssert(n >= 1, "C09: no comment text is lost by the formatter")
+	ast2, err := parser.UncheckedParse([]byte(f1), "/m/c.mro")
+	verifAssert(err == nil, "C09: the formatted text parses")
+	if !listed {
+		return
+	}
+	verifAssert(n == 1, "C09: a comment preceding a declaration, parameter, binding, call, return or collection element is kept exactly once")
+	if err == nil {
+		verifAssert(ast2.format(false) == f1, "C09: with every comment in such a place the output is a fixed point of the formatter")
+	}
+}
+
+// H_C09_commentPlaces(slot, n): one comment of n arbitrary printable bytes at
+// place `slot` of a program with a file type, a struct, a stage with resources
+// and retains, a pipeline with a call, a return and retains, and a call.
+func H_C09_commentPlaces(slot, n int) {
+	marker := c09CommentText(n)
+	c09CheckComment(c09Fill(c09PlacesTemplate, slot, marker, false), marker, c09PlacesListed[slot])
+}
+
+// H_C09_commentInValues(slot, blank, n): one comment before an element of an
+// array, a typed-map or a struct literal (the value of "l" is on the line after
+// its key), directly (blank = 0) or followed by an empty line (blank = 1).
+func H_C09_commentInValues(slot, blank, n int) {
+	marker := c09CommentText(n)
+	c09CheckComment(c09Fill(c09ValuesTemplate, slot, marker, blank != 0), marker, true)
+}
